@@ -1,4 +1,6 @@
-//! C18: the DOT export. A strict parser for the Graphviz subset that dot-writer emits, and the
+//! C18: the DOT export. A parser for the DOT language as Graphviz defines it (comments, default
+//! attribute statements, optional semicolons, edge chains, ports, string concatenation, HTML
+//! strings, subgraphs; not: edges whose end is a subgraph), and the
 //! `dotcheck` sub-command that produces the cases for spec/DotPicture.tla: for every mode of
 //! every program the automaton dump (hook) next to the graph parsed from the exported file.
 
@@ -10,8 +12,11 @@ use std::path::Path;
 
 #[derive(Debug, Clone, PartialEq)]
 enum Tok {
+    /// an identifier, numeral, double-quoted string (content, escapes kept) or HTML string
     Id(String),
-    Str(String),
+    /// a keyword (node, edge, graph, digraph, subgraph, strict), lower-cased; keywords are
+    /// case-independent and only unquoted text can be one
+    Kw(&'static str),
     LBrace,
     RBrace,
     LBrack,
@@ -19,19 +24,57 @@ enum Tok {
     Eq,
     Comma,
     Semi,
+    Colon,
+    Plus,
     Arrow,
 }
 
-/// Graphviz lexical rules for the subset: identifiers [A-Za-z_0-9.]+, double-quoted strings in
-/// which only \" hides a quote, punctuation. Anything else is an error.
+const KEYWORDS: [&str; 6] = ["node", "edge", "graph", "digraph", "subgraph", "strict"];
+
+/// The lexical rules of the DOT language (graphviz.org/doc/info/lang.html): identifiers
+/// (letters, underscore, digits, characters >= U+0080, not starting with a digit), numerals,
+/// double-quoted strings in which only \" hides a quote (a backslash-newline continues the
+/// line), HTML strings with balanced angle brackets, `/* */` and `//` comments, lines starting
+/// with `#`, punctuation. Anything else is an error.
 fn lex(src: &str) -> Result<Vec<Tok>, String> {
     let cs: Vec<char> = src.chars().collect();
     let mut i = 0;
     let mut out = vec![];
+    let mut line_start = true;
     while i < cs.len() {
         let c = cs[i];
+        if c == '\n' {
+            line_start = true;
+            i += 1;
+            continue;
+        }
         if c.is_whitespace() {
             i += 1;
+            continue;
+        }
+        if c == '#' && line_start {
+            while i < cs.len() && cs[i] != '\n' {
+                i += 1;
+            }
+            continue;
+        }
+        line_start = false;
+        if c == '/' && i + 1 < cs.len() && cs[i + 1] == '/' {
+            while i < cs.len() && cs[i] != '\n' {
+                i += 1;
+            }
+        } else if c == '/' && i + 1 < cs.len() && cs[i + 1] == '*' {
+            i += 2;
+            loop {
+                if i + 1 >= cs.len() {
+                    return Err("unterminated comment".to_string());
+                }
+                if cs[i] == '*' && cs[i + 1] == '/' {
+                    i += 2;
+                    break;
+                }
+                i += 1;
+            }
         } else if c == '"' {
             let mut s = String::new();
             i += 1;
@@ -40,6 +83,11 @@ fn lex(src: &str) -> Result<Vec<Tok>, String> {
                     return Err("unterminated string".to_string());
                 }
                 if cs[i] == '\\' && i + 1 < cs.len() {
+                    if cs[i + 1] == '\n' {
+                        // line continuation
+                        i += 2;
+                        continue;
+                    }
                     // escString: the backslash and the next character belong to the string
                     s.push(cs[i]);
                     s.push(cs[i + 1]);
@@ -52,14 +100,65 @@ fn lex(src: &str) -> Result<Vec<Tok>, String> {
                     i += 1;
                 }
             }
-            out.push(Tok::Str(s));
-        } else if c.is_ascii_alphanumeric() || c == '_' || c == '.' {
+            out.push(Tok::Id(s));
+        } else if c == '<' {
+            let mut depth = 0;
             let mut s = String::new();
-            while i < cs.len() && (cs[i].is_ascii_alphanumeric() || cs[i] == '_' || cs[i] == '.') {
+            loop {
+                if i >= cs.len() {
+                    return Err("unterminated HTML string".to_string());
+                }
+                if cs[i] == '<' {
+                    depth += 1;
+                } else if cs[i] == '>' {
+                    depth -= 1;
+                }
+                s.push(cs[i]);
+                i += 1;
+                if depth == 0 {
+                    break;
+                }
+            }
+            out.push(Tok::Id(s));
+        } else if c.is_ascii_digit() || c == '.' || (c == '-' && i + 1 < cs.len() && (cs[i + 1].is_ascii_digit() || cs[i + 1] == '.')) {
+            // numeral: [-]?(.[0-9]+ | [0-9]+(.[0-9]*)?)
+            let mut s = String::new();
+            if c == '-' {
+                s.push('-');
+                i += 1;
+            }
+            let mut digits = 0;
+            while i < cs.len() && cs[i].is_ascii_digit() {
+                s.push(cs[i]);
+                i += 1;
+                digits += 1;
+            }
+            if i < cs.len() && cs[i] == '.' {
+                s.push('.');
+                i += 1;
+                while i < cs.len() && cs[i].is_ascii_digit() {
+                    s.push(cs[i]);
+                    i += 1;
+                    digits += 1;
+                }
+            }
+            if digits == 0 {
+                return Err(format!("malformed numeral at {i}"));
+            }
+            if i < cs.len() && (cs[i].is_alphabetic() || cs[i] == '_') {
+                return Err(format!("identifier starting with a digit at {i}"));
+            }
+            out.push(Tok::Id(s));
+        } else if c.is_ascii_alphabetic() || c == '_' || (c as u32) >= 0x80 {
+            let mut s = String::new();
+            while i < cs.len() && (cs[i].is_ascii_alphanumeric() || cs[i] == '_' || (cs[i] as u32) >= 0x80) {
                 s.push(cs[i]);
                 i += 1;
             }
-            out.push(Tok::Id(s));
+            match KEYWORDS.iter().find(|k| k.eq_ignore_ascii_case(&s)) {
+                Some(k) => out.push(Tok::Kw(k)),
+                None => out.push(Tok::Id(s)),
+            }
         } else {
             let t = match c {
                 '{' => Tok::LBrace,
@@ -69,6 +168,8 @@ fn lex(src: &str) -> Result<Vec<Tok>, String> {
                 '=' => Tok::Eq,
                 ',' => Tok::Comma,
                 ';' => Tok::Semi,
+                ':' => Tok::Colon,
+                '+' => Tok::Plus,
                 '-' if i + 1 < cs.len() && cs[i + 1] == '>' => {
                     i += 1;
                     Tok::Arrow
@@ -82,6 +183,8 @@ fn lex(src: &str) -> Result<Vec<Tok>, String> {
     Ok(out)
 }
 
+/// One scope of the file: the graph itself or a cluster. Statements of subgraphs that are not
+/// clusters belong to the enclosing scope, as in Graphviz.
 #[derive(Default, Debug)]
 pub struct Graph {
     pub label: Option<String>,
@@ -91,9 +194,27 @@ pub struct Graph {
     pub other_attrs: Vec<(String, String)>,
 }
 
+impl Graph {
+    /// a node statement: attributes of a node mentioned before are merged (later ones win)
+    fn node(&mut self, id: String, at: Vec<(String, String)>) {
+        if let Some(n) = self.nodes.iter_mut().find(|n| n.0 == id) {
+            for (k, v) in at {
+                n.1.retain(|x| x.0 != k);
+                n.1.push((k, v));
+            }
+        } else {
+            self.nodes.push((id, at));
+        }
+    }
+    fn declares(&self, id: &str) -> bool {
+        self.nodes.iter().any(|n| n.0 == id) || self.clusters.iter().any(|c| c.1.declares(id))
+    }
+}
+
 struct P {
     t: Vec<Tok>,
     i: usize,
+    anon: usize,
 }
 
 impl P {
@@ -111,77 +232,141 @@ impl P {
             x => Err(format!("expected {t:?}, found {x:?}")),
         }
     }
+    /// ID, with the `+` concatenation of quoted strings
     fn name(&mut self) -> Result<String, String> {
-        match self.next() {
-            Some(Tok::Id(s)) | Some(Tok::Str(s)) => Ok(s),
-            x => Err(format!("expected a name, found {x:?}")),
+        let mut s = match self.next() {
+            Some(Tok::Id(s)) => s,
+            x => return Err(format!("expected a name, found {x:?}")),
+        };
+        while self.peek() == Some(&Tok::Plus) {
+            self.next();
+            match self.next() {
+                Some(Tok::Id(t)) => s.push_str(&t),
+                x => return Err(format!("expected a string after +, found {x:?}")),
+            }
         }
+        Ok(s)
     }
+    /// node_id : ID [ ':' ID [ ':' ID ] ]  (the port is irrelevant for the picture)
+    fn node_id(&mut self) -> Result<String, String> {
+        let n = self.name()?;
+        for _ in 0..2 {
+            if self.peek() == Some(&Tok::Colon) {
+                self.next();
+                self.name()?;
+            }
+        }
+        Ok(n)
+    }
+    /// attr_list : '[' [ a_list ] ']' [ attr_list ] ; a_list : ID '=' ID [ (';' | ',') ] [ a_list ]
     fn attrs(&mut self) -> Result<Vec<(String, String)>, String> {
         let mut v = vec![];
-        self.expect(Tok::LBrack)?;
-        loop {
-            if self.peek() == Some(&Tok::RBrack) {
-                self.next();
-                break;
-            }
-            let k = self.name()?;
-            self.expect(Tok::Eq)?;
-            let val = self.name()?;
-            v.push((k, val));
-            match self.peek() {
-                Some(Tok::Comma) => {
+        while self.peek() == Some(&Tok::LBrack) {
+            self.next();
+            loop {
+                if self.peek() == Some(&Tok::RBrack) {
+                    self.next();
+                    break;
+                }
+                let k = self.name()?;
+                self.expect(Tok::Eq)?;
+                let val = self.name()?;
+                v.retain(|x: &(String, String)| x.0 != k);
+                v.push((k, val));
+                if let Some(Tok::Comma) | Some(Tok::Semi) = self.peek() {
                     self.next();
                 }
-                Some(Tok::RBrack) => {}
-                x => return Err(format!("in attribute list: found {x:?}")),
             }
         }
         Ok(v)
     }
-    fn body(&mut self) -> Result<Graph, String> {
-        let mut g = Graph::default();
-        self.expect(Tok::LBrace)?;
+    /// stmt_list up to the closing brace, into scope `g`
+    fn stmts(&mut self, g: &mut Graph) -> Result<(), String> {
         loop {
             match self.peek().cloned() {
                 Some(Tok::RBrace) => {
                     self.next();
-                    return Ok(g);
+                    return Ok(());
                 }
-                Some(Tok::Id(s)) if s == "subgraph" => {
+                Some(Tok::Semi) => {
                     self.next();
-                    let name = self.name()?;
-                    let sub = self.body()?;
-                    g.clusters.push((name, sub));
                 }
-                Some(Tok::Id(_)) | Some(Tok::Str(_)) => {
-                    let a = self.name()?;
+                Some(Tok::Kw(k)) if k == "node" || k == "edge" || k == "graph" => {
+                    // attr_stmt: defaults. Only a default label of the graph scope matters here.
+                    self.next();
+                    if self.peek() != Some(&Tok::LBrack) {
+                        return Err(format!("expected an attribute list after {k}"));
+                    }
+                    let at = self.attrs()?;
+                    if k == "graph" {
+                        for (a, v) in at {
+                            if a == "label" {
+                                g.label = Some(v);
+                            } else {
+                                g.other_attrs.push((a, v));
+                            }
+                        }
+                    }
+                }
+                Some(Tok::Kw("subgraph")) | Some(Tok::LBrace) => {
+                    let mut name = None;
+                    if self.peek() == Some(&Tok::Kw("subgraph")) {
+                        self.next();
+                        if let Some(Tok::Id(_)) = self.peek() {
+                            name = Some(self.name()?);
+                        }
+                    }
+                    self.expect(Tok::LBrace)?;
+                    match name {
+                        Some(n) if n.starts_with("cluster") => {
+                            let mut sub = Graph::default();
+                            self.stmts(&mut sub)?;
+                            g.clusters.push((n, sub));
+                        }
+                        _ => {
+                            // not a cluster: its statements belong to the enclosing scope
+                            self.anon += 1;
+                            let keep_label = g.label.clone();
+                            self.stmts(g)?;
+                            g.label = keep_label;
+                        }
+                    }
+                    if self.peek() == Some(&Tok::Arrow) {
+                        return Err("edges between subgraphs are outside the subset this parser supports".to_string());
+                    }
+                }
+                Some(Tok::Id(_)) => {
+                    let a = self.node_id()?;
                     match self.peek() {
                         Some(Tok::Eq) => {
                             self.next();
                             let v = self.name()?;
                             if a == "label" {
-                                if g.label.is_some() {
-                                    return Err("two labels".to_string());
-                                }
                                 g.label = Some(v);
                             } else {
                                 g.other_attrs.push((a, v));
                             }
                         }
                         Some(Tok::Arrow) => {
-                            self.next();
-                            let b = self.name()?;
-                            let at = if self.peek() == Some(&Tok::LBrack) { self.attrs()? } else { vec![] };
-                            g.edges.push((a, b, at));
-                        }
-                        Some(Tok::LBrack) => {
+                            let mut chain = vec![a];
+                            while self.peek() == Some(&Tok::Arrow) {
+                                self.next();
+                                if let Some(Tok::Id(_)) = self.peek() {
+                                    chain.push(self.node_id()?);
+                                } else {
+                                    return Err("edges to subgraphs are outside the subset this parser supports".to_string());
+                                }
+                            }
                             let at = self.attrs()?;
-                            g.nodes.push((a, at));
+                            for w in chain.windows(2) {
+                                g.edges.push((w[0].clone(), w[1].clone(), at.clone()));
+                            }
                         }
-                        _ => g.nodes.push((a, vec![])),
+                        _ => {
+                            let at = self.attrs()?;
+                            g.node(a, at);
+                        }
                     }
-                    self.expect(Tok::Semi)?;
                 }
                 x => return Err(format!("unexpected {x:?} in graph body")),
             }
@@ -189,19 +374,43 @@ impl P {
     }
 }
 
-pub fn parse_dot(src: &str) -> Result<Graph, String> {
-    let mut p = P { t: lex(src)?, i: 0 };
-    match p.next() {
-        Some(Tok::Id(s)) if s == "digraph" => {}
-        x => return Err(format!("expected digraph, found {x:?}")),
+/// an edge creates the nodes it mentions if no node statement did (label = name, as in Graphviz)
+fn add_implicit_nodes(g: &mut Graph, declared_elsewhere: &dyn Fn(&str) -> bool) {
+    let ends: Vec<String> = g.edges.iter().flat_map(|e| [e.0.clone(), e.1.clone()]).collect();
+    for id in ends {
+        if !g.declares(&id) && !declared_elsewhere(&id) {
+            g.nodes.push((id, vec![]));
+        }
     }
-    if let Some(Tok::Id(_)) | Some(Tok::Str(_)) = p.peek() {
+}
+
+pub fn parse_dot(src: &str) -> Result<Graph, String> {
+    let mut p = P { t: lex(src)?, i: 0, anon: 0 };
+    if p.peek() == Some(&Tok::Kw("strict")) {
         p.next();
     }
-    let g = p.body()?;
+    match p.next() {
+        Some(Tok::Kw("digraph")) => {}
+        Some(Tok::Kw("graph")) => return Err("an undirected graph cannot picture an automaton".to_string()),
+        x => return Err(format!("expected digraph, found {x:?}")),
+    }
+    if let Some(Tok::Id(_)) = p.peek() {
+        p.name()?;
+    }
+    p.expect(Tok::LBrace)?;
+    let mut g = Graph::default();
+    p.stmts(&mut g)?;
     if p.peek().is_some() {
         return Err("text after the graph".to_string());
     }
+    // implicit nodes: first inside the clusters, then at the top
+    let top: Vec<String> = g.nodes.iter().map(|n| n.0.clone()).collect();
+    let all_cluster: Vec<String> = g.clusters.iter().flat_map(|c| c.1.nodes.iter().map(|n| n.0.clone())).collect();
+    for c in g.clusters.iter_mut() {
+        let (top, all_cluster) = (top.clone(), all_cluster.clone());
+        add_implicit_nodes(&mut c.1, &move |id| top.iter().any(|t| t == id) || all_cluster.iter().any(|t| t == id));
+    }
+    add_implicit_nodes(&mut g, &|_| false);
     Ok(g)
 }
 
@@ -231,7 +440,8 @@ fn nums(l: &str) -> Vec<i64> {
 fn graph_json(g: &Graph) -> Result<Value, String> {
     let mut nodes = vec![];
     for (id, at) in &g.nodes {
-        let l = attr(at, "label").unwrap_or("");
+        // a node without a label shows its name (Graphviz: label = "\\N")
+        let l = attr(at, "label").unwrap_or(id.as_str());
         nodes.push(json!({"id": id, "label": l, "nums": nums(l)}));
     }
     let mut edges = vec![];
@@ -308,6 +518,16 @@ fn special_programs() -> Vec<(String, Vec<RealMode>)> {
     named
 }
 
+/// `dotparse <file>`: prints the parsed graph as JSON, or `{"error": ...}` (selftest of the parser)
+pub fn parse_main(args: &[String]) -> i32 {
+    let src = std::fs::read_to_string(&args[0]).expect("file");
+    match parse_dot(&src).and_then(|g| graph_json(&g)) {
+        Ok(j) => println!("{j}"),
+        Err(e) => println!("{}", json!({"error": e})),
+    }
+    0
+}
+
 /// `dotcheck <out dir> <scratch dir> <source>...` -> <out>/dotcases.json
 pub fn main(args: &[String]) -> i32 {
     let out = &args[0];
@@ -318,7 +538,7 @@ pub fn main(args: &[String]) -> i32 {
     let mut cases = vec![];
     let mut n_files = 0;
     for (pi, (origin, modes)) in progs.iter().enumerate() {
-        let sm = crate::parse::to_scanner_modes(modes);
+        let sm = crate::parse::to_scanner_modes_raw(modes);
         let sc = match std::panic::catch_unwind(|| ScannerBuilder::new().add_scanner_modes(&sm).build_uncached()) {
             Ok(Ok(s)) => s,
             _ => continue,
@@ -349,17 +569,17 @@ pub fn main(args: &[String]) -> i32 {
             cases.push(json!({"kind": "file", "program": pi + 1, "origin": origin, "mode": mi, "name": m.name, "file": file,
                 "returned": ret, "exists": exists, "wellformed": err.is_empty() && exists, "error": err,
                 "graph": if parsed.is_null() { json!({"label": "", "nodes": [], "edges": [], "clusters": []}) } else { parsed },
-                "dump": dump_json(&m.dfa), "desc": crate::record::describe_modes(modes)}));
+                "dump": dump_json(&m.dfa), "desc": crate::record::describe_modes_raw(modes)}));
         }
         expected.sort();
         let distinct_names = { let mut e = expected.clone(); e.dedup(); e.len() == expected.len() };
         cases.push(json!({"kind": "dir", "program": pi + 1, "origin": origin, "returned": ret, "listed": listed, "expected": expected,
-            "distinct": distinct_names, "desc": crate::record::describe_modes(modes)}));
+            "distinct": distinct_names, "desc": crate::record::describe_modes_raw(modes)}));
         let _ = std::fs::remove_dir_all(&dir);
     }
     // fault cases: a target folder that cannot be written to
     if let Some((origin, modes)) = progs.first() {
-        let sm = crate::parse::to_scanner_modes(modes);
+        let sm = crate::parse::to_scanner_modes_raw(modes);
         if let Ok(sc) = ScannerBuilder::new().add_scanner_modes(&sm).build_uncached() {
             let missing = format!("{scratch}/does/not/exist");
             let _ = std::fs::remove_dir_all(format!("{scratch}/does"));
@@ -370,7 +590,7 @@ pub fn main(args: &[String]) -> i32 {
             let r3 = export(&sc, "P", Path::new(&file));
             let _ = std::fs::remove_file(&file);
             for (what, r) in [("target folder does not exist", r1), ("parent of the target folder is a regular file", r2), ("target folder is a regular file", r3)] {
-                cases.push(json!({"kind": "fault", "what": what, "returned": r, "origin": origin, "desc": crate::record::describe_modes(modes)}));
+                cases.push(json!({"kind": "fault", "what": what, "returned": r, "origin": origin, "desc": crate::record::describe_modes_raw(modes)}));
             }
         }
     }
